@@ -38,7 +38,12 @@ def gen_positions(res, games, plies, sparse, corpus, null=0, with_games=False):
     reqs = [f"ggames {seed} {games} {plies} {null} 0", f"ggames {seed + 1} {games} {plies} {null} 1",
             f"gsparse {seed + 2} {sparse} 0", f"gsparse {seed + 3} {max(1, sparse // 4)} 1",
             f"gsgames {seed + 4} {max(1, games // 2)} {plies} 0"]
-    out = run_driver(reqs)
+    pat = max(40, sparse // 5)
+    # constructive patterns: castling (all king/rook files, hazards on the paths, rook shielded on the back rank),
+    # en passant (pins and discoveries on rank/diagonals/file, check by the pushed pawn), promotions next to castling rooks
+    reqs += ["#", f"gpattern {seed + 5} 0 {pat} 1", f"gpattern {seed + 6} 0 {pat // 2} 0", f"gpattern {seed + 7} 1 {pat} 0",
+             f"gpattern {seed + 8} 2 {pat // 2} 1"]
+    out = run_driver([q for q in reqs if q != "#"])
     fens = corpus_fens(corpus, rnd)
     fout = run_driver(["feninw " + f for f in fens])
     lines = [l for l in out if l and l != "bad-op"] + ["#"] + [l for l in fout if l not in ("PANIC", "bad-op")]
@@ -742,11 +747,61 @@ def match_F4(f):
         (f.get("fields") == ["rights"] or "fen" in f)
 
 
+def board_cells(field):
+    cells = []
+    for ch in field:
+        if ch == "/":
+            continue
+        if ch.isdigit():
+            cells += [None] * int(ch)
+        else:
+            cells.append(ch)
+    return cells
+
+
+def cells_field(cells):
+    out = []
+    for r in range(0, len(cells), 8):
+        run, row = 0, ""
+        for c in cells[r:r + 8]:
+            if c is None:
+                run += 1
+            else:
+                row += (str(run) if run else "") + c
+                run = 0
+        out.append(row + (str(run) if run else ""))
+    return "/".join(out)
+
+
+def overlay_fen(parts, rnd):
+    """a 320-square board: the real board, 192 empty squares (the u8 square index wraps at 256) and a 64-square overlay whose
+    characters toggle bits of the real board again (optimised build only; the checked build traps)."""
+    cells = board_cells(parts[0])
+    if len(cells) != 64:
+        return None
+    occ = [i for i, c in enumerate(cells) if c is not None]
+    over = [None] * 64
+    for _ in range(rnd.choice([1, 1, 2, 3])):
+        if occ and rnd.random() < 0.8:
+            i = rnd.choice(occ)
+            c = cells[i]
+            kinds = "PNBRQK" if c.isupper() else "pnbrqk"
+            over[i] = rnd.choice(kinds) if rnd.random() < 0.8 else rnd.choice("PNBRQKpnbrqk")
+        else:
+            over[rnd.randrange(64)] = rnd.choice("PNBRQKpnbrqk")
+    return " ".join([parts[0] + "/" + "/".join(["8"] * 24) + "/" + cells_field(over)] + parts[1:])
+
+
 def mutate_fen(f, rnd):
     if len(f) < 2:
         return f + "8"
     parts = f.split(" ")
-    k = rnd.randrange(16)
+    k = rnd.randrange(18)
+    if k >= 16:
+        o = overlay_fen(parts, rnd)
+        if o is not None:
+            return o
+        k = 4
     if k == 0:
         return f[: rnd.randrange(len(f))]
     if k == 1:
